@@ -1,6 +1,7 @@
 package main
 
 import (
+	"go/types"
 	"strings"
 
 	"golang.org/x/tools/go/ssa"
@@ -389,8 +390,37 @@ func checkC11(c *Ctx, r *Report) {
 	if f := r4.need("(*" + relT + ").relayLimited"); f != nil {
 		ok := false
 		for _, cp := range callsIn(f, "(*"+relT+").copyWithBuffer") {
-			lr := isResultOfCall(callArgs(cp)[2], 0, "io.LimitReader")
-			ok = lr != nil && isParamVar(c, lr.Common().Args[0], "src") && isParamVar(c, lr.Common().Args[1], "limit") && isParamVar(c, callArgs(cp)[1], "dest")
+			// the source is src capped at limit bytes: io.LimitReader(src, limit), or the LimitedReader it stands for
+			rd := callArgs(cp)[2]
+			okSrc := false
+			if lr := isResultOfCall(rd, 0, "io.LimitReader"); lr != nil {
+				okSrc = isParamVar(c, lr.Common().Args[0], "src") && isParamVar(c, lr.Common().Args[1], "limit")
+			} else if al, isAl := strip2(rd).(*ssa.Alloc); isAl && strings.HasSuffix(types.TypeString(al.Type(), nil), "io.LimitedReader") {
+				rOK, nOK, other := false, false, false
+				for _, ref := range *al.Referrers() {
+					fa, isFA := ref.(*ssa.FieldAddr)
+					if !isFA {
+						continue
+					}
+					fl, _ := fieldAddrOf(fa)
+					for _, r2 := range *fa.Referrers() {
+						st, isSt := r2.(*ssa.Store)
+						if !isSt {
+							continue
+						}
+						switch {
+						case fl != nil && fl.Name() == "R" && isParamVar(c, st.Val, "src"):
+							rOK = true
+						case fl != nil && fl.Name() == "N" && isParamVar(c, st.Val, "limit"):
+							nOK = true
+						default:
+							other = true
+						}
+					}
+				}
+				okSrc = rOK && nOK && !other
+			}
+			ok = okSrc && isParamVar(c, callArgs(cp)[1], "dest")
 		}
 		r4.Check(ok, "relayLimited: copy(dest, io.LimitReader(src, limit))", f.Pos(), 1, "", "more than the configured number of bytes can be forwarded", "")
 		for _, d := range findInstrs(f, func(in ssa.Instruction) bool { _, ok := in.(*ssa.Defer); return ok }) {
